@@ -823,8 +823,8 @@ def families():
     mut("ins_second_question_q_plain", "p_mutate::insert::<_, skel_gen::SkQPlain, 0>", 'q_plain', ["C10"], 'rotate',
         "insert_rr of a second question into a query: refused; same decoded message; view == fresh parse")
     for sk, tier in (('q_plain', 'quick'), ('r_a_aaaa', 'rotate')):
-        mut("cacheq_%s" % sk, "p_mutate::cache_then_set_question::<_, skel_gen::%s, p_mutate::Nm<4, 2, false>>" % camel(sk), sk, ["C08"], tier,
-            "question_raw0() (fills the cache) then set_raw_name on the question: the cached question follows the change")
+        mut("cacheq_%s" % sk, "p_mutate::cache_then_set_question::<_, skel_gen::%s, p_mutate::Nm<3, 0, false>>" % camel(sk), sk, ["C08"], tier,
+            "program: set_raw_name on the question (decompresses), question_raw0() (fills the cache), set_raw_name on the question again (equal length): the cached question follows the change; view == fresh parse")
     for sk, sec, idx, tier in (('r_a_aaaa', 1, 0, 'quick'), ('r_a_aaaa', 1, 1, 'rotate'), ('r_three_a', 1, 1, 'rotate'), ('r_all_sections', 3, 0, 'rotate'), ('r_cname_chain', 1, 1, 'rotate')):
         mut("itunc_%s_%s%d" % (sk, SECN[sec], idx), "p_mutate::it_uncompress::<_, skel_gen::%s, %d, %d>" % (camel(sk), sec, idx), sk, ["C08"], tier,
             "DNSIterable::uncompress() through the cursor on record %d of section %s: the cursor still designates and reads that record; view == fresh parse" % (idx, SECN[sec]))
